@@ -56,7 +56,7 @@ static VThread th[SCHED_MAXT]; static int nth;
 static __thread int self = -1;
 static int prefT[SCHED_MAXPREFIX], prefA[SCHED_MAXPREFIX], nprefix, stepIndex;
 static long nowSec, nowNsec, quantum;
-static int spurBudget, eintrBudget, nextTid = -1;
+static int spurBudget, eintrBudget, createFailBudget, nextTid = -1;
 static char trace[1 << 17]; static int tracen;
 static char flags[256];
 static long waitSeqCounter;
@@ -115,8 +115,12 @@ static int candidates(Cand* c)
     switch(T.pend)
     {
     case OP_NONE: break;
-    case OP_START: case OP_TRYLOCK: case OP_BCAST: case OP_CREATE: case OP_SEM_POST: case OP_SEM_TRYWAIT:
+    case OP_START: case OP_TRYLOCK: case OP_BCAST: case OP_SEM_POST: case OP_SEM_TRYWAIT:
       c[n++] = Cand{t, 0, C_NORMAL}; break;
+    case OP_CREATE:      // alternative 1: pthread_create fails with EAGAIN (budgeted, never taken by the default policy)
+      c[n++] = Cand{t, 0, C_NORMAL};
+      if(createFailBudget > 0) c[n++] = Cand{t, 1, C_EINTR};
+      break;
     case OP_UNLOCK: if(M(T.obj)->owner == t) c[n++] = Cand{t, 0, C_NORMAL}; break;
     case OP_CWAIT_ENTER: if(M(T.obj2)->owner == t) c[n++] = Cand{t, 0, C_NORMAL}; break;
     case OP_LOCK: if(lockable(M(T.obj), t)) c[n++] = Cand{t, 0, C_NORMAL}; break;
@@ -317,7 +321,8 @@ static void* tramp(void* p)
 int nv_pthread_create(pthread_t* out, const pthread_attr_t*, void* (*fn)(void*), void* arg)
 {
   pthread_mutex_lock(&G);
-  point(OP_CREATE, 0);
+  int alt = point(OP_CREATE, 0);
+  if(alt == 1) { --createFailBudget; nextTid = -1; pthread_mutex_unlock(&G); return EAGAIN; }
   int id = nextTid >= 0 ? nextTid : nth; nextTid = -1;
   if(id >= SCHED_MAXT || th[id].used) die("thread id");
   if(id >= nth) nth = id + 1;
@@ -380,7 +385,7 @@ void sched_begin(int np, const int* pt, const int* pa, long sec, long nsec, long
   nprefix = np < SCHED_MAXPREFIX ? np : SCHED_MAXPREFIX;
   for(int i = 0; i < nprefix; ++i) { prefT[i] = pt[i]; prefA[i] = pa[i]; }
   stepIndex = 0; nowSec = sec; nowNsec = nsec; quantum = q; spurBudget = spur; eintrBudget = eintr;
-  ndestroyed = 0; waitSeqCounter = 0; nmtx = 0; nsems = 0; nth = 1; tracen = sprintf(trace, "init:"); flags[0] = 0; nextTid = -1;
+  createFailBudget = 0; ndestroyed = 0; waitSeqCounter = 0; nmtx = 0; nsems = 0; nth = 1; tracen = sprintf(trace, "init:"); flags[0] = 0; nextTid = -1;
   memset(th, 0, sizeof(th));
   th[0].used = true; sem_init(&th[0].go, 0, 0); self = 0;
 }
@@ -393,6 +398,7 @@ void sched_event(const char* fmt, ...)
   va_end(ap);
 }
 void sched_set_next_tid(int tid) { nextTid = tid; }
+void sched_set_create_failures(int n) { createFailBudget = n; }
 void sched_flag(const char* what)
 {
   pthread_mutex_lock(&G);
